@@ -183,7 +183,7 @@ class C08(Check):
             self.check_unescape(ctx, cssutils, [(m, item['text']) for m in ([item['token']] if item.get('token') else ['name', 'str'])])
         elif k == 'reparse':
             self.check_reparse(ctx, cssutils, item['text'], item['encoding'])
-        elif k in ('tokesc', 'tokfirst'):
+        elif k in ('tokesc', 'tokfirst', 'tokescf'):
             T.check(self, ctx, cssutils, [(item['text'], item['encoding'])])
 
     # == A: the ladder =================================================================================
